@@ -75,7 +75,8 @@ var (
 )
 
 type pgen struct {
-	rt *rapid.T
+	rt      *rapid.T
+	inGuard int // > 0 while the guard of an if / for is generated: a map literal or a function body there is a parse error by design
 }
 
 func (g *pgen) pick(label string, xs []string) string {
@@ -158,6 +159,9 @@ func (g *pgen) expr(d int) string {
 	case 5:
 		return g.list(d)
 	case 6, 7:
+		if g.inGuard > 0 {
+			return g.list(d)
+		}
 		return g.mapLit(d)
 	case 8:
 		return g.call(d)
@@ -166,6 +170,9 @@ func (g *pgen) expr(d int) string {
 	case 10:
 		return g.pick("pre", []string{"not ", "-", "+"}) + g.expr(d-1)
 	default:
+		if g.inGuard > 0 {
+			return g.atom()
+		}
 		return "func (" + g.params() + ") " + g.block(d-1)
 	}
 }
@@ -195,7 +202,7 @@ func (g *pgen) block(d int) string {
 	for i := range parts {
 		parts[i] = indent(g.stmt(d - 1))
 	}
-	if n == 1 && g.n("oneline", 0, 2) == 0 {
+	if n == 1 && g.n("oneline", 0, 2) == 0 && !strings.Contains(parts[0], "#") && !strings.Contains(parts[0], "return") {
 		return "{ " + strings.TrimSpace(parts[0]) + " }"
 	}
 	return "{\n" + strings.Join(parts, "\n") + "\n}"
@@ -205,18 +212,21 @@ func (g *pgen) block(d int) string {
 // error or a different tree - whatever the sequential parser says is the
 // expectation).
 func (g *pgen) cond(d int) string {
-	switch g.n("cond", 0, 9) {
-	case 0:
-		return g.mapLit(1) + " == " + g.atom()
-	case 1:
-		return g.atom() + " in " + g.mapLit(1)
-	case 2:
-		return "(" + g.pick("id", idents) + " == " + g.mapLit(1) + ")"
-	case 3:
-		return "len(" + g.mapLit(1) + ") > 0"
-	default:
-		return g.expr(min(d, 2))
+	if g.n("condmap", 0, 59) == 37 {
+		switch g.n("cond", 0, 3) {
+		case 0:
+			return g.mapLit(1) + " == " + g.atom()
+		case 1:
+			return g.atom() + " in " + g.mapLit(1)
+		case 2:
+			return "(" + g.pick("id", idents) + " == " + g.mapLit(1) + ")"
+		default:
+			return "len(" + g.mapLit(1) + ") > 0"
+		}
 	}
+	g.inGuard++
+	defer func() { g.inGuard-- }()
+	return g.expr(min(d, 2))
 }
 
 func (g *pgen) ifStmt(d int) string {
@@ -230,18 +240,27 @@ func (g *pgen) ifStmt(d int) string {
 	return s
 }
 
+func (g *pgen) guardExpr(d int) string {
+	g.inGuard++
+	defer func() { g.inGuard-- }()
+	return g.expr(d)
+}
+
 func (g *pgen) forStmt(d int) string {
-	switch g.n("forkind", 0, 4) {
-	case 0:
+	switch g.n("forkind", 0, 8) {
+	case 0, 1:
 		return "for " + g.pick("id", idents[:4]) + " in range(" + g.pick("num", numbers) + ", " + g.pick("num", numbers) + ") " + g.block(d)
-	case 1:
-		return "for [k, v] in " + g.expr(1) + " " + g.block(d)
-	case 2:
-		return "for " + g.pick("id", idents[:4]) + " in " + g.mapLit(1) + " " + g.block(d)
-	case 3:
+	case 2, 3:
+		return "for [k, v] in " + g.guardExpr(1) + " " + g.block(d)
+	case 4:
+		if g.n("formap", 0, 11) == 5 {
+			return "for " + g.pick("id", idents[:4]) + " in " + g.mapLit(1) + " " + g.block(d)
+		}
+		return "for " + g.pick("id", idents[:4]) + " in m " + g.block(d)
+	case 5, 6:
 		return "for " + g.cond(d) + " " + g.block(d)
 	default:
-		return "for " + g.pick("id", idents[:4]) + " in " + g.expr(1) + " " + g.block(d)
+		return "for " + g.pick("id", idents[:4]) + " in " + g.guardExpr(1) + " " + g.block(d)
 	}
 }
 
@@ -352,7 +371,7 @@ func (g *pgen) stmt(d int) string {
 
 // program draws one program whose first statement has the forced kind.
 func (g *pgen) program(force string) string {
-	n := g.n("stmts", 1, 5)
+	n := g.n("stmts", 1, 4)
 	parts := make([]string, 0, n)
 	pos := g.n("forcepos", 0, n-1)
 	for i := 0; i < n; i++ {
@@ -412,7 +431,7 @@ type evalGen struct {
 
 // drawEval builds the sink program, the import files and the events.
 func drawEval(rt *rapid.T) (mainText string, files map[string]string, events []Event, sinkIf, sinkMap bool) {
-	g := &pgen{rt}
+	g := &pgen{rt: rt}
 	files = map[string]string{}
 	nlibs := g.n("nlibs", 1, 3)
 	for i := 0; i < nlibs; i++ {
